@@ -62,7 +62,9 @@ C15_NAMES = ["length", "at", "copy", "insert", "find", "count", "contains", "rep
 C15_STRS = ["", "a", "ab", "abc", "abcabc", "aaa", "aaaa", "äb", "bä", "äbä", "日本語", "😀a", "a😀b", "é", "ée", "  x y  ", "\t\n x ", " x　", "a;b;\"c;d\";e", "a,b,,c", "\"", "x;\"y", "AbC",
             "ß", "İ", "ǅ", "ὈΔΥΣΣΕΎΣ", "Σ", "aΣ", "ΑΣ ", "ﬁ", "ŉ", "ÄRGER", "École", "привет", "ÑandÚ", "Straße", "ΣΊΣΥΦΟΣ"]
 C15_ARRS = [arr(), arr(num(1.0)), arr(num(1.0), s("1"), b(True)), arr(num(3.0), num(1.0), num(2.0), num(1.0)), arr(s("b"), s("a"), s("b")), arr(arr(num(1.0)), arr(), arr(num(1.0))),
-            arr(b(True), b(True), b(False)), arr(s("x"), arr(s("x")), num(0.0), num(-0.0))]
+            arr(b(True), b(True), b(False)), arr(s("x"), arr(s("x")), num(0.0), num(-0.0)),
+            # few members, long members: the length of a needle says nothing about whether it is a member
+            arr(s("abc")), arr(arr(num(1.0), num(2.0), num(3.0)), arr(num(1.0), num(2.0), num(3.0))), arr(s("hello"), num(1.0), s("hello")), arr(arr(arr(num(1.0), num(2.0))))]
 
 
 def gen_c15(tier, R, off):
@@ -89,7 +91,8 @@ def gen_c15(tier, R, off):
             for t in subs[:5]:
                 out.append(bi(off, "replace", [st, x, t]))
         out.append(f"(poscoh _ {st})")
-    elems = [num(1.0), s("1"), b(True), num(3.0), s("b"), arr(num(1.0)), arr(), num(0.0), s("x"), num(NAN)]
+    elems = [num(1.0), s("1"), b(True), num(3.0), s("b"), arr(num(1.0)), arr(), num(0.0), s("x"), num(NAN), s("abc"), s("hello"), arr(num(1.0), num(2.0), num(3.0)), arr(arr(num(1.0), num(2.0))),
+             s("a much longer text than any array here has members")]
     for a in C15_ARRS:
         for n in ("length", "reverse", "unique", "all", "any"):
             out.append(bi(off, n, [a]))
